@@ -166,6 +166,11 @@ func TestBoundedC13DatabaseAPI(t *testing.T) {
 		}
 		op = nextOp()
 		request("insert into a missing record", op, op+`|insert|`+key("missing")+`|{"b":3}`, []string{"success", "error"}, exactlyOne("error")(op))
+		// a record stored in another format than JSON has no accessor: insert must be refused, not crash
+		op = nextOp()
+		request("create non-JSON", op, op+"|create|"+key("rec/cbor")+"|C\xa1\x61\x6e\x02", []string{"success", "error"}, exactlyOne("success")(op))
+		op = nextOp()
+		request("insert into a non-JSON record", op, op+`|insert|`+key("rec/cbor")+`|{"b":3}`, []string{"success", "error"}, exactlyOne("error")(op))
 		op = nextOp()
 		request("delete", op, op+"|delete|"+k, []string{"success", "error"}, exactlyOne("success")(op))
 		op = nextOp()
